@@ -30,6 +30,7 @@ against the reference interpretation
   pow2 k   := 2 ^ k.toNat
   bl x     := Nat.size x.natAbs     (Python: bit_length ignores the sign)
   ipow b e := b ^ e.toNat
+  tz x     := padicValNat 2 x.toNat (trailing zeros of x > 0 = 2-adic valuation)
 
 and Lean's `Int./`, `Int.%` (Euclidean = SMT-LIB `div`/`mod`).  This is the part
 that would expose a missing guard: variables that are unguarded in theory.py
@@ -236,6 +237,197 @@ theorem F1_mod (a b k : ℕ) (h : b < 2 ^ k) : (a * 2 ^ k + b) % 2 ^ k = b := by
   rw [Nat.add_comm, Nat.add_mul_mod_self_right, Nat.mod_eq_of_lt h]
 
 theorem F2 (j k : ℕ) : 2 ^ (j + k) = 2 ^ j * 2 ^ k := pow_add 2 j k
+
+/-! ### second batch (schemas added to theory.py later): DM.one, M.ge2, MM.*, TZ.*, CL -/
+
+theorem DM_one (x k : ℕ) (h1 : 2 ^ k ≤ x) (h2 : x < 2 * 2 ^ k) :
+    x / 2 ^ k = 1 ∧ x % 2 ^ k = x - 2 ^ k := by
+  have hp : 0 < 2 ^ k := by positivity
+  generalize 2 ^ k = p at h1 h2 hp ⊢
+  have hq : x / p = 1 := Nat.div_eq_of_lt_le (by omega) (by omega)
+  have hdm := Nat.div_add_mod x p
+  rw [hq] at hdm
+  exact ⟨hq, by omega⟩
+
+theorem M_ge2 (x k : ℕ) (h : 1 ≤ k) : 2 * x ≤ x * 2 ^ k := by
+  have h2 : 2 ^ 1 ≤ 2 ^ k := Nat.pow_le_pow_right (by norm_num) h
+  have := Nat.mul_le_mul_left x h2
+  omega
+
+/-- MM.div (two remainders of one numerator): `2^b ∣ x → 2^a ∣ x` for `a ≤ b`. -/
+theorem MM_div (x a b : ℕ) (h : a ≤ b) (hv : x % 2 ^ b = 0) : x % 2 ^ a = 0 :=
+  Nat.mod_eq_zero_of_dvd (dvd_trans (pow_dvd_pow 2 h) (Nat.dvd_of_mod_eq_zero hv))
+
+/-- MM.le (two remainders of one numerator): `x mod 2^a ≤ x mod 2^b` for `a ≤ b`. -/
+theorem MM_le (x a b : ℕ) (h : a ≤ b) : x % 2 ^ a ≤ x % 2 ^ b :=
+  calc x % 2 ^ a = x % 2 ^ b % 2 ^ a := (Nat.mod_mod_of_dvd x (pow_dvd_pow 2 h)).symm
+    _ ≤ x % 2 ^ b := Nat.mod_le _ _
+
+theorem mul_lt_mul_right_iff' (a c p : ℕ) (hp : 0 < p) : a * p < c * p ↔ a < c :=
+  ⟨fun h => lt_of_mul_lt_mul_right h hp.le, fun h => Nat.mul_lt_mul_of_pos_right h hp⟩
+
+/-- MM.lt (two products): `a*2^j < b*2^k ↔ a < b*2^(k-j)` for `j ≤ k`. -/
+theorem MM_lt (a b j k : ℕ) (h : j ≤ k) : a * 2 ^ j < b * 2 ^ k ↔ a < b * 2 ^ (k - j) := by
+  have e : b * 2 ^ k = (b * 2 ^ (k - j)) * 2 ^ j := by rw [PP_split j k h]; ring
+  rw [e]
+  exact mul_lt_mul_right_iff' _ _ _ (by positivity)
+
+theorem MM_gt (a b j k : ℕ) (h : j ≤ k) : b * 2 ^ k < a * 2 ^ j ↔ b * 2 ^ (k - j) < a := by
+  have e : b * 2 ^ k = (b * 2 ^ (k - j)) * 2 ^ j := by rw [PP_split j k h]; ring
+  rw [e]
+  exact mul_lt_mul_right_iff' _ _ _ (by positivity)
+
+theorem MM_eq (a b j k : ℕ) (h : j ≤ k) : a * 2 ^ j = b * 2 ^ k ↔ a = b * 2 ^ (k - j) := by
+  have e : b * 2 ^ k = (b * 2 ^ (k - j)) * 2 ^ j := by rw [PP_split j k h]; ring
+  rw [e]
+  constructor
+  · intro h'
+    exact Nat.eq_of_mul_eq_mul_right (by positivity) h'
+  · intro h'
+    rw [h']
+
+/-! #### trailing zeros: `tz x` = 2-adic valuation of `x` -/
+
+/-- model of the SMT function `tz`: number of trailing zero bits = 2-adic valuation -/
+def tz (x : ℕ) : ℕ := padicValNat 2 x
+
+theorem tz_dvd_iff (x n : ℕ) (hx : 0 < x) : 2 ^ n ∣ x ↔ n ≤ tz x :=
+  padicValNat_dvd_iff_le (p := 2) (Nat.pos_iff_ne_zero.mp hx)
+
+theorem tz_pow (n : ℕ) : tz (2 ^ n) = n := padicValNat.prime_pow n
+
+/-- the defining decomposition: `x = (2m+1) * 2^tz(x)` -/
+theorem tz_decomp (x : ℕ) (hx : 0 < x) : ∃ m, x = 2 ^ (tz x + 1) * m + 2 ^ tz x := by
+  have hA : 2 ^ tz x ∣ x := (tz_dvd_iff x (tz x) hx).mpr le_rfl
+  have hB : ¬ 2 ^ (tz x + 1) ∣ x := by
+    rw [tz_dvd_iff x (tz x + 1) hx]; omega
+  obtain ⟨q, hq⟩ := hA
+  obtain ⟨m, hm | hm⟩ := Nat.even_or_odd' q
+  · exfalso
+    apply hB
+    refine ⟨m, ?_⟩
+    calc x = 2 ^ tz x * q := hq
+      _ = 2 ^ tz x * (2 * m) := by rw [hm]
+      _ = 2 ^ (tz x + 1) * m := by rw [pow_succ]; ring
+  · refine ⟨m, ?_⟩
+    rw [pow_succ]
+    calc x = 2 ^ tz x * q := hq
+      _ = 2 ^ tz x * (2 * m + 1) := by rw [hm]
+      _ = 2 ^ tz x * 2 * m + 2 ^ tz x := by ring
+
+/-- ... and the decomposition determines `tz` -/
+theorem tz_of_decomp (x k m : ℕ) (h : x = 2 ^ (k + 1) * m + 2 ^ k) : tz x = k := by
+  have hp : 0 < 2 ^ k := by positivity
+  have hx : 0 < x := by omega
+  have h1 : 2 ^ k ∣ x := ⟨2 * m + 1, by rw [h, pow_succ]; ring⟩
+  have h2 : ¬ 2 ^ (k + 1) ∣ x := by
+    intro hd
+    rw [h] at hd
+    have hd' : 2 ^ (k + 1) ∣ 2 ^ k := (Nat.dvd_add_right (Dvd.intro m rfl)).mp hd
+    have hle := Nat.le_of_dvd hp hd'
+    rw [pow_succ] at hle
+    omega
+  rw [tz_dvd_iff x k hx] at h1
+  rw [tz_dvd_iff x (k + 1) hx] at h2
+  omega
+
+theorem TZ_le (x : ℕ) (h : 0 < x) : 2 ^ tz x ≤ x :=
+  Nat.le_of_dvd h ((tz_dvd_iff x (tz x) h).mpr le_rfl)
+
+theorem TZ_range (x : ℕ) (h : 0 < x) : 0 ≤ tz x ∧ tz x ≤ Nat.size x - 1 := by
+  have h1 : tz x < Nat.size x := Nat.lt_size.mpr (TZ_le x h)
+  exact ⟨Nat.zero_le _, by omega⟩
+
+theorem TZ_div (x : ℕ) (h : 0 < x) : x % 2 ^ tz x = 0 ∧ (x / 2 ^ tz x) % 2 = 1 := by
+  obtain ⟨m, hm⟩ := tz_decomp x h
+  generalize tz x = t at hm ⊢
+  subst hm
+  have e : 2 ^ (t + 1) * m + 2 ^ t = 2 ^ t * (2 * m + 1) := by rw [pow_succ]; ring
+  rw [e, Nat.mul_mod_right, Nat.mul_div_cancel_left _ (by positivity)]
+  exact ⟨rfl, by omega⟩
+
+theorem TZ_pow2 (x : ℕ) (h : 0 < x) : x = 2 ^ tz x ↔ tz x = Nat.size x - 1 := by
+  constructor
+  · intro h'
+    have hs := congrArg Nat.size h'
+    rw [Nat.size_pow] at hs
+    omega
+  · intro h'
+    have hpos := B_pos x h
+    have hs : Nat.size x = tz x + 1 := by omega
+    have hlt := Nat.lt_size_self x
+    rw [hs] at hlt
+    obtain ⟨m, hm⟩ := tz_decomp x h
+    generalize tz x = t at hm hlt ⊢
+    rcases m with _ | m
+    · simpa using hm
+    · exfalso
+      have : 2 ^ (t + 1) ≤ 2 ^ (t + 1) * (m + 1) := Nat.le_mul_of_pos_right _ (by omega)
+      omega
+
+theorem TZ_pow2b (x : ℕ) (h : 0 < x) : x = 2 ^ (Nat.size x - 1) ↔ tz x = Nat.size x - 1 := by
+  constructor
+  · intro h'
+    have ht := congrArg tz h'
+    rw [tz_pow] at ht
+    exact ht
+  · intro h'
+    rw [← h']
+    exact (TZ_pow2 x h).mpr h'
+
+/-- the refutation-mode table for `tz` (`bounded_defs`): the standard value satisfies its row ... -/
+theorem TZ_bounded (x : ℕ) (h : 0 < x) : x % 2 ^ (tz x + 1) = 2 ^ tz x := by
+  obtain ⟨m, hm⟩ := tz_decomp x h
+  generalize tz x = t at hm ⊢
+  subst hm
+  have hlt : 2 ^ t < 2 ^ (t + 1) := Nat.pow_lt_pow_right (by norm_num) (by omega)
+  rw [Nat.mul_add_mod, Nat.mod_eq_of_lt hlt]
+
+/-- ... and no other row can hold -/
+theorem TZ_bounded_unique (x k : ℕ) (hk : x % 2 ^ (k + 1) = 2 ^ k) : tz x = k := by
+  have hdm := (Nat.div_add_mod x (2 ^ (k + 1))).symm
+  rw [hk] at hdm
+  exact tz_of_decomp x k _ hdm
+
+/-- law CL of pyvc/interp.py (`x & (x-1)` for `x ≥ 1`, with `r = x - 2^tz(x)`). -/
+theorem CL (x : ℕ) (h : 1 ≤ x) :
+    2 ^ tz x ≤ x ∧ x - 2 ^ tz x < x ∧ (x - 2 ^ tz x = 0 ↔ x = 2 ^ (Nat.size x - 1)) := by
+  have hle := TZ_le x h
+  have hpos : 0 < 2 ^ tz x := by positivity
+  refine ⟨hle, by omega, ?_⟩
+  constructor
+  · intro h0
+    have hx : x = 2 ^ tz x := by omega
+    exact (TZ_pow2b x h).mpr ((TZ_pow2 x h).mp hx)
+  · intro h1
+    have hx := (TZ_pow2 x h).mpr ((TZ_pow2b x h).mp h1)
+    omega
+
+/-- TZ.def, the meaning the interpreter gives to `x & (x-1)`: it clears the lowest set bit. -/
+theorem TZ_def (x : ℕ) (h : 0 < x) : x &&& (x - 1) = x - 2 ^ tz x := by
+  obtain ⟨m, hm⟩ := tz_decomp x h
+  generalize tz x = t at hm ⊢
+  subst hm
+  have hP : 0 < 2 ^ (t + 1) := by positivity
+  have hpos : 0 < 2 ^ t := by positivity
+  have hlt : 2 ^ t < 2 ^ (t + 1) := Nat.pow_lt_pow_right (by norm_num) (by omega)
+  have hlt' : 2 ^ t - 1 < 2 ^ (t + 1) := by omega
+  have hb : 2 ^ (t + 1) * m + 2 ^ t - 1 = 2 ^ (t + 1) * m + (2 ^ t - 1) := by omega
+  rw [hb]
+  have hz := (Nat.div_add_mod
+    ((2 ^ (t + 1) * m + 2 ^ t) &&& (2 ^ (t + 1) * m + (2 ^ t - 1))) (2 ^ (t + 1))).symm
+  have d1 : (2 ^ (t + 1) * m + 2 ^ t) / 2 ^ (t + 1) = m := by
+    rw [Nat.mul_add_div hP, Nat.div_eq_of_lt hlt, Nat.add_zero]
+  have d2 : (2 ^ (t + 1) * m + (2 ^ t - 1)) / 2 ^ (t + 1) = m := by
+    rw [Nat.mul_add_div hP, Nat.div_eq_of_lt hlt', Nat.add_zero]
+  have m1 : (2 ^ (t + 1) * m + 2 ^ t) % 2 ^ (t + 1) = 2 ^ t := by
+    rw [Nat.mul_add_mod, Nat.mod_eq_of_lt hlt]
+  have m2 : (2 ^ (t + 1) * m + (2 ^ t - 1)) % 2 ^ (t + 1) = 2 ^ t - 1 := by
+    rw [Nat.mul_add_mod, Nat.mod_eq_of_lt hlt']
+  rw [Nat.and_div_two_pow, Nat.and_mod_two_pow, d1, d2, m1, m2, Nat.and_self,
+    Nat.and_two_pow_sub_one_eq_mod, Nat.mod_self, Nat.add_zero] at hz
+  rw [hz]
+  omega
 
 end FpyLemmas
 
@@ -576,6 +768,207 @@ theorem IP_zerob (b e : ℤ) : b = 0 ∧ e > 0 → ipow b e = 0 := by
 theorem IP_two (b e : ℤ) : b = 2 ∧ e ≥ 0 → ipow b e = pow2 e := by
   rintro ⟨rfl, _⟩
   rfl
+
+/-! ### second batch (schemas added to theory.py later): DM.one, M.ge2, MM.*, TZ.*, CL -/
+
+/-- reference interpretation of the SMT function `tz` (only `x > 0` matters) -/
+def tz (x : ℤ) : ℤ := (FpyLemmas.tz x.toNat : ℤ)
+
+theorem tz_cast (x : ℕ) : tz (x : ℤ) = (FpyLemmas.tz x : ℤ) := by
+  simp [tz]
+
+theorem cast_size_pred (c : ℕ) (h : 0 < c) : ((Nat.size c : ℤ) - 1) = ((Nat.size c - 1 : ℕ) : ℤ) := by
+  have := FpyLemmas.B_pos c h
+  omega
+
+/-- DM.one (option 'DM1'); `num` unguarded (but `num ≥ pow2 k > 0`) -/
+theorem DM_one (num k : ℤ) : k ≥ 0 ∧ num ≥ pow2 k ∧ num < 2 * pow2 k →
+    num / pow2 k = 1 ∧ num % pow2 k = num - pow2 k := by
+  rintro ⟨hk, h1, h2⟩
+  have hp := pow2_pos k
+  lift num to ℕ using (by omega)
+  lift k to ℕ using hk
+  rw [cast_ediv_pow2, cast_emod_pow2]
+  rw [pow2_cast] at h1 h2 ⊢
+  have h1' : 2 ^ k ≤ num := by exact_mod_cast h1
+  have h2' : num < 2 * 2 ^ k := by exact_mod_cast h2
+  obtain ⟨hq, hr⟩ := FpyLemmas.DM_one num k h1' h2'
+  rw [hq, hr]
+  refine ⟨by norm_num, ?_⟩
+  push_cast [Nat.cast_sub h1']
+  rfl
+
+/-- M.ge2 (option 'MM') with `t = x * pow2 k` -/
+theorem M_ge2 (x k : ℤ) : x ≥ 0 ∧ k ≥ 1 → x * pow2 k ≥ 2 * x := by
+  rintro ⟨hx, hk⟩
+  have e := P_step k hk
+  have hp := pow2_pos (k - 1)
+  rw [e]
+  nlinarith
+
+/-- MM.div with `u = x % pow2 a`, `v = x % pow2 b`; `x` is an arbitrary integer -/
+theorem MM_div (x a b : ℤ) : a ≥ 0 ∧ a ≤ b ∧ x % pow2 b = 0 → x % pow2 a = 0 := by
+  rintro ⟨ha, hab, hv⟩
+  have e : pow2 b = pow2 a * pow2 (b - a) := PP_split a b ⟨ha, hab⟩
+  have d1 : pow2 a ∣ pow2 b := Dvd.intro _ e.symm
+  have d2 : pow2 b ∣ x := Int.dvd_of_emod_eq_zero hv
+  exact Int.emod_eq_zero_of_dvd (dvd_trans d1 d2)
+
+/-- MM.le with `u = x % pow2 a`, `v = x % pow2 b` -/
+theorem MM_le (x a b : ℤ) : a ≥ 0 ∧ a ≤ b ∧ x ≥ 0 → x % pow2 a ≤ x % pow2 b := by
+  rintro ⟨ha, hab, hx⟩
+  lift a to ℕ using ha
+  lift b to ℕ using (by omega)
+  lift x to ℕ using hx
+  have hab' : a ≤ b := by exact_mod_cast hab
+  rw [cast_emod_pow2, cast_emod_pow2]
+  exact_mod_cast FpyLemmas.MM_le x a b hab'
+
+theorem mul_lt_mul_right_iff' (a c p : ℤ) (hp : 0 < p) : a * p < c * p ↔ a < c :=
+  ⟨fun h => lt_of_mul_lt_mul_right h hp.le, fun h => mul_lt_mul_of_pos_right h hp⟩
+
+theorem MM_aux (b j k : ℤ) (hj : j ≥ 0) (hjk : j ≤ k) :
+    b * pow2 k = (b * pow2 (k - j)) * pow2 j := by
+  rw [PP_split j k ⟨hj, hjk⟩]; ring
+
+/-- MM.lt (option 'MM') with `ta = a * pow2 j`, `tb = b * pow2 k`, `d = pow2 (k - j)`; `a`, `b` arbitrary integers -/
+theorem MM_lt (a b j k : ℤ) : j ≥ 0 ∧ j ≤ k →
+    ((a * pow2 j < b * pow2 k) ↔ (a < b * pow2 (k - j))) := by
+  rintro ⟨hj, hjk⟩
+  rw [MM_aux b j k hj hjk]
+  exact mul_lt_mul_right_iff' _ _ _ (pow2_pos j)
+
+theorem MM_gt (a b j k : ℤ) : j ≥ 0 ∧ j ≤ k →
+    ((b * pow2 k < a * pow2 j) ↔ (b * pow2 (k - j) < a)) := by
+  rintro ⟨hj, hjk⟩
+  rw [MM_aux b j k hj hjk]
+  exact mul_lt_mul_right_iff' _ _ _ (pow2_pos j)
+
+theorem MM_eq (a b j k : ℤ) : j ≥ 0 ∧ j ≤ k →
+    ((a * pow2 j = b * pow2 k) ↔ (a = b * pow2 (k - j))) := by
+  rintro ⟨hj, hjk⟩
+  rw [MM_aux b j k hj hjk]
+  constructor
+  · intro h
+    exact mul_right_cancel₀ (ne_of_gt (pow2_pos j)) h
+  · intro h
+    rw [h]
+
+/-- What theory.py emitted (before fix b15ccef) for two remainders of one numerator while `_ax_mm` was defined twice
+(the product version shadowed the remainder version and read `x % pow2 a` as `x * pow2 a`):
+that formula is false (`x = 4`, `a = 1`, `b = 2`). -/
+theorem MM_lt_on_remainders_is_false :
+    ¬ (∀ x a b : ℤ, a ≥ 0 ∧ a ≤ b → ((x % pow2 a < x % pow2 b) ↔ (x < x * pow2 (b - a)))) := by
+  intro h
+  have h1 := h 4 1 2 ⟨by norm_num, by norm_num⟩
+  have p1 : pow2 1 = 2 := P_one 1 rfl
+  have p2 : pow2 2 = 4 := P_two 2 rfl
+  have e : (2 : ℤ) - 1 = 1 := by norm_num
+  rw [e, p1, p2] at h1
+  have h2 := h1.mpr (by norm_num)
+  norm_num at h2
+
+/-! #### `_ax_tz` -/
+
+theorem TZ_range (x : ℤ) : x > 0 → tz x ≥ 0 ∧ tz x ≤ bl x - 1 := by
+  intro h
+  lift x to ℕ using h.le
+  have hx : 0 < x := by exact_mod_cast h
+  rw [tz_cast, bl_cast]
+  have h1 := FpyLemmas.TZ_range x hx
+  have h2 := FpyLemmas.B_pos x hx
+  omega
+
+theorem TZ_div (x : ℤ) : x > 0 → x % pow2 (tz x) = 0 ∧ (x / pow2 (tz x)) % 2 = 1 := by
+  intro h
+  lift x to ℕ using h.le
+  have hx : 0 < x := by exact_mod_cast h
+  rw [tz_cast, cast_emod_pow2, cast_ediv_pow2]
+  obtain ⟨h1, h2⟩ := FpyLemmas.TZ_div x hx
+  exact ⟨by exact_mod_cast h1, by exact_mod_cast h2⟩
+
+theorem TZ_le (x : ℤ) : x > 0 → pow2 (tz x) ≤ x := by
+  intro h
+  lift x to ℕ using h.le
+  have hx : 0 < x := by exact_mod_cast h
+  rw [tz_cast, pow2_cast]
+  exact_mod_cast FpyLemmas.TZ_le x hx
+
+theorem TZ_pow2 (x : ℤ) : x > 0 → ((x = pow2 (tz x)) ↔ (tz x = bl x - 1)) := by
+  intro h
+  lift x to ℕ using h.le
+  have hx : 0 < x := by exact_mod_cast h
+  rw [tz_cast, pow2_cast, bl_cast]
+  have key := FpyLemmas.TZ_pow2 x hx
+  have hpos := FpyLemmas.B_pos x hx
+  constructor
+  · intro h'
+    have h'' : x = 2 ^ FpyLemmas.tz x := by exact_mod_cast h'
+    have := key.mp h''
+    omega
+  · intro h'
+    have h'' : FpyLemmas.tz x = Nat.size x - 1 := by omega
+    exact_mod_cast key.mpr h''
+
+theorem TZ_pow2b (x : ℤ) : x > 0 → ((x = pow2 (bl x - 1)) ↔ (tz x = bl x - 1)) := by
+  intro h
+  lift x to ℕ using h.le
+  have hx : 0 < x := by exact_mod_cast h
+  rw [tz_cast, bl_cast, cast_size_pred x hx, pow2_cast]
+  have key := FpyLemmas.TZ_pow2b x hx
+  constructor
+  · intro h'
+    have h'' : x = 2 ^ (Nat.size x - 1) := by exact_mod_cast h'
+    exact_mod_cast key.mp h''
+  · intro h'
+    have h'' : FpyLemmas.tz x = Nat.size x - 1 := by exact_mod_cast h'
+    exact_mod_cast key.mpr h''
+
+/-- refutation-mode table row for `tz` (`bounded_defs`): `x % 2^(k+1) = 2^k ∧ tz x = k` holds for `k = tz x` ... -/
+theorem TZ_bounded (x : ℤ) : x > 0 → x % pow2 (tz x + 1) = pow2 (tz x) := by
+  intro h
+  lift x to ℕ using h.le
+  have hx : 0 < x := by exact_mod_cast h
+  rw [tz_cast]
+  have e : ((FpyLemmas.tz x : ℤ) + 1) = ((FpyLemmas.tz x + 1 : ℕ) : ℤ) := by push_cast; rfl
+  rw [e, cast_emod_pow2, pow2_cast]
+  exact_mod_cast FpyLemmas.TZ_bounded x hx
+
+/-- ... and for no other `k` -/
+theorem TZ_bounded_unique (x k : ℤ) : x > 0 ∧ k ≥ 0 ∧ x % pow2 (k + 1) = pow2 k → tz x = k := by
+  rintro ⟨h, hk, hm⟩
+  lift x to ℕ using h.le
+  lift k to ℕ using hk
+  have e : ((k : ℤ) + 1) = ((k + 1 : ℕ) : ℤ) := by push_cast; rfl
+  rw [e, cast_emod_pow2, pow2_cast] at hm
+  have hm' : x % 2 ^ (k + 1) = 2 ^ k := by exact_mod_cast hm
+  rw [tz_cast]
+  exact_mod_cast FpyLemmas.TZ_bounded_unique x k hm'
+
+/-- law CL as assumed in pyvc/interp.py for `big & (big-1)`, `big ≥ 1`, `r = big - pow2 (tz big)` -/
+theorem CL (big : ℤ) : big ≥ 1 →
+    big - pow2 (tz big) ≥ 0 ∧ big - pow2 (tz big) < big ∧
+      ((big - pow2 (tz big) = 0) ↔ (big = pow2 (bl big - 1))) := by
+  intro h
+  have hpos := pow2_pos (tz big)
+  have hle := TZ_le big (by omega)
+  refine ⟨by omega, by omega, ?_⟩
+  have k1 := TZ_pow2 big (by omega)
+  have k2 := TZ_pow2b big (by omega)
+  constructor
+  · intro h0
+    exact k2.mpr (k1.mp (by omega))
+  · intro h1
+    have := k1.mpr (k2.mp h1)
+    omega
+
+/-- TZ.def: for `x > 0` the bitwise `x & (x-1)` (on naturals) is `x - pow2 (tz x)` -/
+theorem TZ_def (x : ℤ) : x > 0 → ((x.toNat &&& (x.toNat - 1) : ℕ) : ℤ) = x - pow2 (tz x) := by
+  intro h
+  lift x to ℕ using h.le
+  have hx : 0 < x := by exact_mod_cast h
+  rw [tz_cast, pow2_cast, Int.toNat_natCast, FpyLemmas.TZ_def x hx]
+  exact Nat.cast_sub (FpyLemmas.TZ_le x hx)
 
 /-! ### negative controls: the literal layer does see guards (dropping one makes a schema false) -/
 
